@@ -333,8 +333,8 @@ def r5_stray_mutators(ctx, rep, R='C18.R5'):
         g = ctx.cfg(fi)
         by = {}
         for kind, canon, node in muts:
-            by.setdefault(canon, []).append((kind, node))
-        for canon, items in sorted(by.items()):
+            by.setdefault((canon, kind), []).append((kind, node))
+        for (canon, _kind), items in sorted(by.items()):
             n += 1
             getters = CALL_MUTATORS.get(canon, (canon,))
             saves = {}
